@@ -373,7 +373,7 @@ class Screen(BaseScreen, RealTerminal):
 
         @functools.wraps(callback)
         def wrapper():
-            if self._input_timeout:
+            if self._input_timeout is not None:
                 event_loop.remove_alarm(self._input_timeout)
                 self._input_timeout = None
             timeout, keys, raw = self.get_input_nonblocking()  # pylint: disable=no-member  # should we deprecate?
@@ -462,7 +462,7 @@ class Screen(BaseScreen, RealTerminal):
 
         # Note: event_loop may be None for 100% synchronous support, only used
         # by get_input.  Not documented because you shouldn't be doing it.
-        if self._input_timeout and event_loop:
+        if self._input_timeout is not None and event_loop:
             event_loop.remove_alarm(self._input_timeout)
             self._input_timeout = None
 
